@@ -35,3 +35,95 @@ pub(crate) fn wire_types() -> Vec<WireType> {
         handshake::Handshake { accept_max_streams: caps(&[(0, 1), (1, 3), (2, 5), (7, u32::MAX)]), connect_max_streams: caps(&[(3, 0), (4, 1), (5, 2)]) },
     ])]
 }
+
+// ---------------------------------------------------------------------------------------------
+// The multiplexer itself over a caller-supplied transport.
+use std::{collections::BTreeMap, sync::Arc};
+
+use zksync_concurrency::{ctx, io, limiter};
+
+use crate::noise::bytes;
+
+pub struct VMuxConfig {
+    pub read_frame_size: u64,
+    pub read_buffer_size: u64,
+    pub read_frame_count: u64,
+    pub write_frame_size: u64,
+}
+
+#[derive(Clone)]
+pub struct VQueue(Arc<super::StreamQueue>);
+pub struct VStream(super::Stream);
+pub struct VReadHalf(super::ReadStream);
+pub struct VMux(super::Mux);
+
+impl VQueue {
+    pub fn new(ctx: &ctx::Ctx, max_streams: u32, rate: limiter::Rate) -> Self {
+        Self(super::StreamQueue::new(ctx, max_streams, rate))
+    }
+    /// `StreamQueue::open`.
+    pub async fn open(&self, ctx: &ctx::Ctx) -> ctx::OrCanceled<VStream> {
+        Ok(VStream(self.0.open(ctx).await?))
+    }
+}
+
+async fn read_up_to(r: &mut super::ReadStream, ctx: &ctx::Ctx, n: usize) -> anyhow::Result<Vec<u8>> {
+    let mut b = bytes::Buffer::new(n);
+    r.read_exact(ctx, &mut b).await?;
+    Ok(b.as_slice().to_vec())
+}
+
+impl VStream {
+    pub async fn write_all(&mut self, ctx: &ctx::Ctx, buf: &[u8]) -> anyhow::Result<()> {
+        self.0.write.write_all(ctx, buf).await
+    }
+    pub async fn flush(&mut self, ctx: &ctx::Ctx) -> anyhow::Result<()> {
+        self.0.write.flush(ctx).await
+    }
+    /// `ReadStream::read_exact` into a buffer of `n` bytes; returns what was read (shorter = EOS).
+    pub async fn read_up_to(&mut self, ctx: &ctx::Ctx, n: usize) -> anyhow::Result<Vec<u8>> {
+        read_up_to(&mut self.0.read, ctx, n).await
+    }
+    /// Drops the write half (sends CLOSE), keeps the read half.
+    pub fn close_write(self) -> VReadHalf {
+        VReadHalf(self.0.read)
+    }
+    /// `frame::mux_recv_proto::<rpc::ping::Req>` on the read half.
+    pub async fn recv_ping_frame(&mut self, ctx: &ctx::Ctx, max_size: usize) -> Result<usize, String> {
+        crate::frame::mux_recv_proto::<crate::rpc::ping::Req>(ctx, &mut self.0.read, max_size).await.map(|x| x.1).map_err(|e| format!("{e:#}"))
+    }
+}
+
+impl VReadHalf {
+    pub async fn read_up_to(&mut self, ctx: &ctx::Ctx, n: usize) -> anyhow::Result<Vec<u8>> {
+        read_up_to(&mut self.0, ctx, n).await
+    }
+}
+
+impl VMux {
+    pub fn new(cfg: VMuxConfig, accept: Vec<(u64, VQueue)>, connect: Vec<(u64, VQueue)>) -> Self {
+        Self(super::Mux {
+            cfg: Arc::new(super::Config {
+                read_frame_size: cfg.read_frame_size,
+                read_buffer_size: cfg.read_buffer_size,
+                read_frame_count: cfg.read_frame_count,
+                write_frame_size: cfg.write_frame_size,
+            }),
+            accept: accept.into_iter().map(|(k, q)| (k, q.0)).collect::<BTreeMap<_, _>>(),
+            connect: connect.into_iter().map(|(k, q)| (k, q.0)).collect::<BTreeMap<_, _>>(),
+        })
+    }
+    /// `Mux::run`; the error is rendered as its variant name followed by the message.
+    pub async fn run<S: io::AsyncRead + io::AsyncWrite + Send>(self, ctx: &ctx::Ctx, transport: S) -> Result<(), String> {
+        self.0.run(ctx, transport).await.map_err(|e| {
+            let kind = match &e {
+                super::RunError::Config(_) => "Config",
+                super::RunError::Canceled(_) => "Canceled",
+                super::RunError::Closed => "Closed",
+                super::RunError::Protocol(_) => "Protocol",
+                super::RunError::IO(_) => "IO",
+            };
+            format!("{kind}: {e:#}")
+        })
+    }
+}
